@@ -40,7 +40,9 @@ def write_pickle_xsec(path, tab):
         pickle.dump(d, f)
 
 
-def write_hdf5_xsec(path, tab, molname, unit='bar'):
+def write_hdf5_xsec(path, tab, molname, unit='bar', variant=0):
+    """variant bit 0: mol_name stored as a one-element array (as the ExoMol
+    files do) instead of a scalar; bit 1: a DOI dataset is present."""
     import h5py
     with h5py.File(path, 'w') as f:
         f.create_dataset('bin_edges', data=np.array(tab['wn']))
@@ -48,8 +50,14 @@ def write_hdf5_xsec(path, tab, molname, unit='bar'):
         p = f.create_dataset('p', data=np.array(tab['P']) / PRESSURE_UNITS[unit])
         p.attrs['units'] = unit
         f.create_dataset('xsecarr', data=np.array(tab['x']))
-        f.create_dataset('mol_name', data=molname)
+        if variant & 1:
+            f.create_dataset('mol_name', data=np.array([molname.encode()]))
+        else:
+            f.create_dataset('mol_name', data=molname)
         f.create_dataset('key_iso_ll', data=molname)
+        if variant & 2:
+            f.create_dataset('DOI', data=np.array([b'10.1000/verif.%d'
+                                                   % (variant,)]))
 
 
 def write_exotransmit(path, tab, order='asc', seed=0):
